@@ -1,9 +1,323 @@
-(* PropC13.v — property theorems for C13 (path algebra).  Only statements closed by [exact],
-   each followed by Print Assumptions. *)
-From Coq Require Import NArith List Bool.
-From CS Require Import Sx Str PathModel PathLaws.
-Import ListNotations.
+(* PropC13.v — property theorems for C13 (path algebra), about the executable model PathModel.v.
+   Every theorem is closed by [exact] of a lemma of PathLaws.v / PathGenLaws.v and followed by Print
+   Assumptions (all: closed under the global context); Examples show that the hypotheses are satisfiable
+   and the conclusions non-trivial.  Full-strength statements that are false of the faithful model are kept
+   as [..._full] with a [..._refuted] theorem next to the strongest true form; the refutations are the only
+   proofs written here: a concrete witness evaluated by vm_compute.
 
+   Hypotheses used throughout (PathLaws.v):
+     fold_ok cv   the per-character case fold is idempotent, maps exactly the separator to the
+                  separator, exactly the alt separator to itself, and (with win_paths) exactly ':' to ':'
+     conv_ok cv   := cv_cs cv = false -> fold_ok cv      (nothing is assumed for case-sensitive providers)
+     abs_path cv f := the separator-normalised f starts with the separator
+     dl cv j      := win_paths and j[1:2] == ':'   (the drive-letter exception of Provider.join)
+   Reading aids:  pc cv p = components of p;  render cv l = canonical string of a component list;
+                  key cv d l = l | folded l | folded l but for the leaf (display mode). *)
+From Coq Require Import NArith List Bool String Ascii.
+From CS Require Import Sx Str StrLemmas PathModel PathLaws GenPrims GenPath PathGenLaws.
+Import ListNotations.
+Definition str_of (x : string) : str := map N_of_ascii (list_ascii_of_string x).
+Arguments str_of x%string.
+Definition std := cv_std true false.       (* case-sensitive, '/' with alt '\' *)
+Definition std_ci := cv_std false false.   (* case-insensitive *)
+Definition std_win := cv_std false true.   (* case-insensitive, win_paths *)
+
+(* ------------------------------------------------------------------ 1. normalisation is idempotent *)
 Theorem C13_nps_idem : forall cv p, nps cv (nps cv p) = nps cv p.
 Proof. exact nps_idem. Qed.
 Print Assumptions C13_nps_idem.
+
+Theorem C13_normalize_idem : forall cv, conv_ok cv -> forall p d,
+  normalize_path cv (normalize_path cv p d) d = normalize_path cv p d.
+Proof. exact normalize_idem. Qed.
+Print Assumptions C13_normalize_idem.
+
+(* what the normal form is *)
+Theorem C13_normalize_render : forall cv, conv_ok cv -> forall p d,
+  normalize_path cv p d = render cv (key cv d (pc cv p)).
+Proof. exact normalize_render. Qed.
+Print Assumptions C13_normalize_render.
+
+Example conv_ok_std : conv_ok std /\ conv_ok std_ci /\ conv_ok std_win.
+Proof. split; [apply cv_std_ok|split; apply cv_std_ok]. Qed.
+Example fold_ok_std_win : fold_ok std_win.
+Proof. apply fold_std_ok. Qed.
+Example normalize_ex :
+  normalize_path std_ci (str_of "\Ab//C d\Ef/") false = str_of "/ab/c d/ef" /\
+  normalize_path std_ci (str_of "\Ab//C d\Ef/") true = str_of "/ab/c d/Ef" /\
+  normalize_path std_win (str_of "C:\Ab\X") true = str_of "c:/ab/X".
+Proof. vm_compute. auto. Qed.
+
+(* ------------------------------------------------------------------ 2. split then join *)
+Theorem C13_split_join : forall cv, conv_ok cv -> forall p d,
+  paths_match cv (join cv [dirname cv p; basename cv p]) p d = true.
+Proof. exact split_join. Qed.
+Print Assumptions C13_split_join.
+
+Example split_join_ex :
+  split std_ci (str_of "/a//B\c/") = (str_of "/a//B", str_of "c") /\
+  join std_ci [str_of "/a//B"; str_of "c"] = str_of "/a//B/c".
+Proof. vm_compute. auto. Qed.
+
+(* ------------------------------------------------------------------ 3. a folder joined with a relative part *)
+Theorem C13_join_inside : forall cv, conv_ok cv -> forall f r st d,
+  abs_path cv f -> strip (cv_sep cv) (nps cv r) <> [] -> dl cv (join cv [f; r]) = false ->
+  exists rel, is_subpath cv f (join cv [f; r]) st = Rel rel /\ paths_match cv rel r d = true.
+Proof. exact join_inside. Qed.
+Print Assumptions C13_join_inside.
+
+Theorem C13_join_inside_exact : forall cv, conv_ok cv -> forall f r st,
+  abs_path cv f -> strip (cv_sep cv) (nps cv r) <> [] -> dl cv (join cv [f; r]) = false ->
+  is_subpath cv f (join cv [f; r]) st = Rel (cv_sep cv :: strip (cv_sep cv) (nps cv r)).
+Proof. exact join_inside_eq. Qed.
+Print Assumptions C13_join_inside_exact.
+
+Example join_inside_ex :
+  abs_path std_win (str_of "\Top/") /\ strip 47 (nps std_win (str_of "/x\Y/")) <> [] /\
+  dl std_win (join std_win [str_of "\Top/"; str_of "/x\Y/"]) = false /\
+  is_subpath std_win (str_of "\Top/") (join std_win [str_of "\Top/"; str_of "/x\Y/"]) true = Rel (str_of "/x/Y").
+Proof. split; [exists (str_of "Top"); reflexivity|]. vm_compute. repeat split; congruence. Qed.
+
+(* the drive-letter exception of join is real: without the [dl] hypothesis the law is false *)
+Definition join_inside_full : Prop := forall cv, conv_ok cv -> forall f r st,
+  abs_path cv f -> strip (cv_sep cv) (nps cv r) <> [] ->
+  is_subpath cv f (join cv [f; r]) st <> NotSub.
+Theorem C13_join_inside_refuted : ~ join_inside_full.
+Proof.
+  intros H. apply (H (cv_std true true) (conv_ok_cs (cv_std true true) eq_refl) (str_of "/") (str_of "c:x") false).
+  - exists []. reflexivity.
+  - vm_compute. discriminate.
+  - vm_compute. reflexivity.
+Qed.
+Print Assumptions C13_join_inside_refuted.
+
+(* ------------------------------------------------------------------ 4. sharing only a name prefix is not inside *)
+Theorem C13_prefix_sibling : forall cv, conv_ok cv -> forall f c s st,
+  nps cv f <> [] -> nps cv f <> [cv_sep cv] -> c <> cv_sep cv -> cv_alt cv <> Some c ->
+  is_subpath cv f (nps cv f ++ c :: s) st = NotSub.
+Proof. exact prefix_sibling. Qed.
+Print Assumptions C13_prefix_sibling.
+
+Example prefix_sibling_ex :
+  nps std_ci (str_of "/Dir/") = str_of "/Dir" /\
+  is_subpath std_ci (str_of "/Dir/") (str_of "/Dir2/x") false = NotSub /\
+  is_subpath std_ci (str_of "/Dir/") (str_of "/dir/x") false = Rel (str_of "/x").
+Proof. vm_compute. auto. Qed.
+
+(* stated on the raw folder string the law is false: a trailing separator of the folder is dropped first *)
+Definition prefix_sibling_full : Prop := forall cv, conv_ok cv -> forall f c s,
+  is_subpath cv f (f ++ c :: s) false <> NotSub -> c = cv_sep cv \/ cv_alt cv = Some c \/ f = [cv_sep cv].
+Theorem C13_prefix_sibling_refuted : ~ prefix_sibling_full.
+Proof.
+  intros H. specialize (H std (conv_ok_cs std eq_refl) (str_of "/a/") 98%N [] ). vm_compute in H.
+  destruct H as [H|[H|H]]; discriminate.
+Qed.
+Print Assumptions C13_prefix_sibling_refuted.
+
+Theorem C13_subpath_strict : forall cv f t r,
+  is_subpath cv f t true = Rel r -> is_subpath cv f t false = Rel r.
+Proof. exact subpath_strict. Qed.
+Print Assumptions C13_subpath_strict.
+
+Theorem C13_subpath_nonstrict : forall cv f t r, is_subpath cv f t false = Rel r ->
+  is_subpath cv f t true = Rel r \/ (is_subpath cv f t true = NotSub /\ r = [cv_sep cv]).
+Proof. exact subpath_nonstrict. Qed.
+Print Assumptions C13_subpath_nonstrict.
+
+(* inside = the components of the target are those of the folder followed by those of the relative part *)
+Theorem C13_subpath_components : forall cv, conv_ok cv -> forall f p st r,
+  is_subpath cv f p st = Rel r -> lowk cv (pc cv p) = lowk cv (pc cv f) ++ lowk cv (pc cv r).
+Proof. exact is_subpath_components. Qed.
+Print Assumptions C13_subpath_components.
+
+(* ------------------------------------------------------------------ 5. replace_path *)
+Theorem C13_replace_moves_rel : forall cv f p t rel,
+  is_subpath cv f p false = Rel rel ->
+  replace_path cv p f t = RepOk (nps cv t ++ (if str_eqb rel [cv_sep cv] then [] else rel)).
+Proof. exact replace_moves_rel. Qed.
+Print Assumptions C13_replace_moves_rel.
+
+Theorem C13_replace_iff_sub : forall cv f p t,
+  replace_path cv p f t = RepValueError <-> is_subpath cv f p false = NotSub.
+Proof. exact replace_iff_sub. Qed.
+Print Assumptions C13_replace_iff_sub.
+
+Theorem C13_replace_lands_inside : forall cv, conv_ok cv -> forall f p t rel out,
+  is_subpath cv f p false = Rel rel -> rel <> [cv_sep cv] -> t <> [] -> nps cv t <> [cv_sep cv] ->
+  replace_path cv p f t = RepOk out -> is_subpath cv t out false = Rel rel.
+Proof. exact replace_lands_inside. Qed.
+Print Assumptions C13_replace_lands_inside.
+
+Theorem C13_replace_lands_inside_equiv : forall cv, conv_ok cv -> forall f p t rel out,
+  is_subpath cv f p false = Rel rel -> rel <> [cv_sep cv] -> t <> [] ->
+  replace_path cv p f t = RepOk out ->
+  exists rel', is_subpath cv t out false = Rel rel' /\ pc cv rel' = pc cv rel.
+Proof. exact replace_lands_inside_equiv. Qed.
+Print Assumptions C13_replace_lands_inside_equiv.
+
+Example replace_ex :
+  is_subpath std_ci (str_of "/A") (str_of "\a/x/Y") false = Rel (str_of "/x/Y") /\
+  replace_path std_ci (str_of "\a/x/Y") (str_of "/A") (str_of "/t/") = RepOk (str_of "/t/x/Y") /\
+  is_subpath std_ci (str_of "/t/") (str_of "/t/x/Y") false = Rel (str_of "/x/Y") /\
+  replace_path std_ci (str_of "/ab/x") (str_of "/a") (str_of "/t") = RepValueError.
+Proof. vm_compute. auto. Qed.
+
+(* moving into the root gives "//x": the same relative part is NOT reported back (an equivalent one is) *)
+Definition replace_lands_inside_full : Prop := forall cv, conv_ok cv -> forall f p t rel out,
+  is_subpath cv f p false = Rel rel -> rel <> [cv_sep cv] -> t <> [] ->
+  replace_path cv p f t = RepOk out -> is_subpath cv t out false = Rel rel.
+Theorem C13_replace_lands_inside_refuted : ~ replace_lands_inside_full.
+Proof.
+  intros H.
+  specialize (H std (conv_ok_cs std eq_refl) (str_of "/a") (str_of "/a/x") (str_of "/") (str_of "/x") (str_of "//x")).
+  vm_compute in H. specialize (H eq_refl). 
+  assert (H' : Rel [47%N; 47%N; 120%N] = Rel [47%N; 120%N]) by (apply H; try reflexivity; discriminate).
+  discriminate.
+Qed.
+Print Assumptions C13_replace_lands_inside_refuted.
+
+(* ------------------------------------------------------------------ 6. path equality *)
+Theorem C13_match_refl : forall cv a d, paths_match cv a a d = true.
+Proof. exact match_refl. Qed.
+Print Assumptions C13_match_refl.
+
+Theorem C13_match_sym : forall cv a b d, paths_match cv a b d = paths_match cv b a d.
+Proof. exact match_sym. Qed.
+Print Assumptions C13_match_sym.
+
+Theorem C13_match_trans : forall cv a b c d,
+  paths_match cv a b d = true -> paths_match cv b c d = true -> paths_match cv a c d = true.
+Proof. exact match_trans. Qed.
+Print Assumptions C13_match_trans.
+
+Theorem C13_match_iff_norm : forall cv a b d,
+  paths_match cv a b d = true <-> normalize_path cv a d = normalize_path cv b d.
+Proof. exact match_iff_norm. Qed.
+Print Assumptions C13_match_iff_norm.
+
+(* equality is equality of components, case-folded only where the provider is case-insensitive *)
+Theorem C13_match_iff_components : forall cv, conv_ok cv -> forall a b d,
+  paths_match cv a b d = true <-> key cv d (pc cv a) = key cv d (pc cv b).
+Proof. exact match_iff_key. Qed.
+Print Assumptions C13_match_iff_components.
+
+Theorem C13_match_normalize : forall cv, conv_ok cv -> forall p d,
+  paths_match cv (normalize_path cv p d) p d = true.
+Proof. exact match_normalize. Qed.
+Print Assumptions C13_match_normalize.
+
+Theorem C13_match_case : forall cv, fold_ok cv -> forall p, cv_cs cv = false ->
+  paths_match cv p (lower cv p) false = true.
+Proof. exact match_case. Qed.
+Print Assumptions C13_match_case.
+
+Theorem C13_match_case_sensitive : forall cv a b d, cv_cs cv = true ->
+  (paths_match cv a b d = true <-> pc cv a = pc cv b).
+Proof. exact match_cs. Qed.
+Print Assumptions C13_match_case_sensitive.
+
+Theorem C13_display_keeps_leaf : forall cv, fold_ok cv -> forall p, cv_cs cv = false ->
+  basename cv (normalize_path cv p true) = basename cv (normalize_path (cs_twin cv) p false).
+Proof. exact display_keeps_leaf. Qed.
+Print Assumptions C13_display_keeps_leaf.
+
+Theorem C13_display_same_class : forall cv, fold_ok cv -> forall p, cv_cs cv = false ->
+  lower cv (normalize_path cv p true) = normalize_path cv p false.
+Proof. exact display_same_class. Qed.
+Print Assumptions C13_display_same_class.
+
+Theorem C13_match_display_plain : forall cv, conv_ok cv -> forall a b,
+  paths_match cv a b true = true -> paths_match cv a b false = true.
+Proof. exact match_display_plain. Qed.
+Print Assumptions C13_match_display_plain.
+
+Example match_ex :
+  paths_match std_ci (str_of "/A\b//C/") (str_of "/a/B/c") false = true /\
+  paths_match std_ci (str_of "/A\b//C/") (str_of "/a/B/c") true = false /\
+  paths_match std_ci (str_of "/A\b//C/") (str_of "/a/B/C") true = true /\
+  paths_match std (str_of "/A/b") (str_of "/a/b") false = false.
+Proof. vm_compute. auto. Qed.
+
+(* in display mode the leaf keeps its case, so a path does not match its own lower-casing *)
+Definition match_case_display_full : Prop := forall cv, fold_ok cv -> forall p, cv_cs cv = false ->
+  paths_match cv p (lower cv p) true = true.
+Theorem C13_match_case_display_refuted : ~ match_case_display_full.
+Proof.
+  intros H. specialize (H cv_A fold_A_ok (str_of "/A") eq_refl). vm_compute in H. discriminate.
+Qed.
+Print Assumptions C13_match_case_display_refuted.
+
+(* ------------------------------------------------------------------ 7. translate *)
+Theorem C13_translate_outside : forall cv0 cv1 r0 r1 side p,
+  is_subpath (cv_of cv0 cv1 (negb side)) (root_of r0 r1 (negb side)) p false = NotSub <->
+  translate cv0 cv1 r0 r1 side p = None.
+Proof. exact translate_outside. Qed.
+Print Assumptions C13_translate_outside.
+
+Theorem C13_translate_inside : forall cv0 cv1 r0 r1 side p r,
+  is_subpath (cv_of cv0 cv1 (negb side)) (root_of r0 r1 (negb side)) p false = Rel r ->
+  translate cv0 cv1 r0 r1 side p = Some (join (cv_of cv0 cv1 side) [root_of r0 r1 side; r]).
+Proof. exact translate_inside. Qed.
+Print Assumptions C13_translate_inside.
+
+Theorem C13_translate_lands_inside : forall cv0 cv1 r0 r1 side p q,
+  conv_ok (cv_of cv0 cv1 side) -> abs_path (cv_of cv0 cv1 side) (root_of r0 r1 side) ->
+  translate cv0 cv1 r0 r1 side p = Some q -> dl (cv_of cv0 cv1 side) q = false ->
+  is_subpath (cv_of cv0 cv1 side) (root_of r0 r1 side) q false <> NotSub.
+Proof. exact translate_lands_inside. Qed.
+Print Assumptions C13_translate_lands_inside.
+
+Theorem C13_translate_roundtrip : forall cv0 cv1 r0 r1 side p,
+  conv_ok cv0 -> conv_ok cv1 -> same_syntax cv0 cv1 -> abs_path cv0 r0 -> abs_path cv1 r1 ->
+  is_subpath (cv_of cv0 cv1 (negb side)) (root_of r0 r1 (negb side)) p false <> NotSub ->
+  exists q,
+    translate cv0 cv1 r0 r1 side p = Some q /\
+    (dl (cv_of cv0 cv1 side) q = false ->
+     exists back,
+       translate cv0 cv1 r0 r1 (negb side) q = Some back /\
+       paths_match (cv_of cv0 cv1 (negb side)) back p false = true).
+Proof. exact translate_roundtrip. Qed.
+Print Assumptions C13_translate_roundtrip.
+
+Example translate_ex :
+  same_syntax std std_ci /\ abs_path std (str_of "/Local") /\ abs_path std_ci (str_of "\remote\") /\
+  translate std std_ci (str_of "/Local") (str_of "\remote\") true (str_of "/Local//x\Y/") = Some (str_of "/remote/x/Y") /\
+  translate std std_ci (str_of "/Local") (str_of "\remote\") false (str_of "/REMOTE/x/Y") = Some (str_of "/Local/x/Y") /\
+  translate std std_ci (str_of "/Local") (str_of "\remote\") true (str_of "/Local2/x") = None /\
+  translate std std_ci (str_of "/Local") (str_of "\remote\") true (str_of "/local/x") = None.
+Proof.
+  split; [split; reflexivity|]. split; [exists (str_of "Local"); reflexivity|].
+  split; [exists (str_of "remote"); reflexivity|]. vm_compute. auto.
+Qed.
+
+(* ------------------------------------------------------------------ second tie: the source as translated *)
+(* GenPath.v is regenerated from cloudsync/provider.py by harness/translator.py on every run; these
+   equalities carry every theorem above over to what the source of the four helpers says now. *)
+Theorem C13_gen_nps : forall cv p, gen_nps cv p = nps cv p.
+Proof. exact gen_nps_eq. Qed.
+Print Assumptions C13_gen_nps.
+
+Theorem C13_gen_split : forall cv p, gen_split cv p = split cv p.
+Proof. exact gen_split_eq. Qed.
+Print Assumptions C13_gen_split.
+
+Theorem C13_gen_is_subpath : forall cv f t st, gen_is_subpath cv f t st = is_subpath cv f t st.
+Proof. exact gen_is_subpath_eq. Qed.
+Print Assumptions C13_gen_is_subpath.
+
+Theorem C13_gen_replace_path : forall cv p f t, gen_replace_path cv p f t = replace_path cv p f t.
+Proof. exact gen_replace_path_eq. Qed.
+Print Assumptions C13_gen_replace_path.
+
+(* ------------------------------------------------------------------ the fold hypothesis is needed *)
+(* without [conv_ok] normalisation is not idempotent: a fold that is not idempotent breaks it.  (On the real
+   code the same happens where str.lower() is not a per-character fold: known finding P-10, U+0130 before ':'.) *)
+Definition normalize_idem_full : Prop := forall cv p d,
+  normalize_path cv (normalize_path cv p d) d = normalize_path cv p d.
+Theorem C13_normalize_idem_nofold_refuted : ~ normalize_idem_full.
+Proof.
+  intros H.
+  specialize (H {| cv_sep := 47; cv_alt := None; cv_cs := false; cv_win := false; cv_fold := N.succ |} (str_of "a") false).
+  vm_compute in H. discriminate.
+Qed.
+Print Assumptions C13_normalize_idem_nofold_refuted.
